@@ -185,6 +185,7 @@ def run_job(job):
                     continue
                 if "inputs" in c:       # call(..., inputs=[...]) replaces the queue; otherwise what is left stays
                     tr.stdin.items = list(c["inputs"])
+                mro = []
                 if not callable(g.get(c["fn"])):
                     res["calls"].append({"result": ["nofn"], "events": tr.take()})
                     continue
@@ -195,7 +196,8 @@ def run_job(job):
                     raise
                 except BaseException as e:  # noqa
                     r = ["exc", type(e).__name__]
-                res["calls"].append({"result": r, "events": tr.take()})
+                    mro = [k.__name__ for k in type(e).__mro__]
+                res["calls"].append({"result": r, "events": tr.take(), "mro": mro})
     finally:
         sys.modules["__main__"] = saved_main
     return res
